@@ -1,6 +1,7 @@
 package checks
 
 import (
+	"sync"
 	"fmt"
 
 	"github.com/ja7ad/otp"
@@ -243,6 +244,44 @@ func c03(r *ev.Run, pairMode bool) {
 				cfgs = append(cfgs, cfg{key, sec, ^uint64(0) - s - back, s, 6, 0})
 			}
 		}
+	}
+	// key-length sweep: every key length 1..140 bytes (below, at and above the block sizes 64 / 128 of the three
+	// hashes) x hash x windows 0, 1, 3, 10: the window codes are accepted, the codes next to the window are not
+	{
+		var n int64
+		type kl struct{ L, a int }
+		var kls []kl
+		for L := 1; L <= 140; L++ {
+			for a := 0; a < 3; a++ {
+				kls = append(kls, kl{L, a})
+			}
+		}
+		var mu sync.Mutex
+		ev.Par(len(kls), func(i int) {
+			L, a := kls[i].L, kls[i].a
+			key := patt(L, byte(3*L+a))
+			sec := ref.B32Encode(key)
+			var local int64
+			for _, sk := range []uint64{0, 1, 3, 10} {
+				for _, ctr := range []uint64{17, 1 << 33} {
+					window := hotpWindow(key, ctr, sk, 6, a)
+					subs := append([]string{ref.HOTP(key, ctr-sk-1, 6, a), ref.HOTP(key, ctr+sk+1, 6, a)}, window...)
+					for _, code := range subs {
+						c := c03Case{sec, code, ctr, sk, 6, a, false}
+						obs, bad := hotpValidate(c, key, window, pairMode)
+						local++
+						if bad != "" {
+							r.Fail(scen, fmt.Sprintf("key-length sweep: %d-byte key algo=%d skew=%d counter=%d %s", L, a, sk, ctr, bad), c, bad, obs)
+						}
+					}
+				}
+			}
+			mu.Lock()
+			n += local
+			mu.Unlock()
+		})
+		r.Eval(n)
+		r.Set("key_length_sweep", map[string]any{"lengths": "1..140", "hashes": 3, "windows": []int{0, 1, 3, 10}, "validations": n})
 	}
 	r.Set("configs", len(cfgs))
 	ev.Par(len(cfgs), func(i int) {
